@@ -26,12 +26,16 @@ REAL = "float64 encoded as Real in the runs marked float=real: rounding, overflo
 specs = {}
 
 specs["C01"] = {"runs": [
+    run("resolver:Harness_C01_resolve", QT, {"K": 3, "M": 1, "L": 1, "tight": 1}, "real", "all", cover=["acyclic-book", "nesting>=2"], note="every book under the default limit 10 and under the tightest limit that admits it (longest chain + 1)"),
     run("resolver:Harness_C01_resolve", QT, {"K": 3, "M": 2, "L": 1}, "real", "all", cover=["acyclic-book", "nesting>=2"], note="9261 books of 3 recipes x <=2 ingredients over {3 recipes, 1 leaf}, 873 acyclic, x 3! visiting orders x 2 entry points"),
     run("resolver:Harness_C01_resolve", QT, {"K": 2, "M": 3, "L": 2}, "real", "all", cover=["acyclic-book"], note="repeated ingredients, two basic elements"),
     run("resolver:Harness_C01_idempotent", QT, {"K": 3, "M": 2, "L": 1}, "fp", "all", note="IEEE-754 encoding: re-resolving through the other entry point is bit-identical"),
     run("resolver:Harness_C01_resolve", T, {"K": 3, "M": 2, "L": 3}, "real", "all", cover=["acyclic-book", "nesting>=2"]),
+    run("resolver:Harness_C01_resolve", T, {"K": 3, "M": 2, "L": 1, "tight": 1}, "real", "all", cover=["acyclic-book", "nesting>=2"]),
+    run("cmd/hranoprovod-cli:Harness_app_pipeline", QT, {"command": 4}, "real", cover=["ran"], note="whole application, `csv database-resolved`: the book as text through the real parser and resolver (nested recipes, repeated ingredients, forward and backward references) against path sums"),
+    run("cmd/hranoprovod-cli:Harness_app_pipeline", QT, {"command": 5}, "real", cover=["ran"], note="whole application, `report element-total x`"),
     run("resolver:Harness_C01_resolve", T, {"K": 4, "M": 1, "L": 2}, "real", "all", cover=["acyclic-book", "nesting>=2"], note="chains of depth 4; 4! visiting orders"),
- ], "assumptions": [REAL, DATA, "depth limit N = 10 (the default)"],
+ ], "assumptions": [REAL, DATA, "depth limit N = 10 (the default), and the tightest admissible limit in the runs marked tight"],
  "outside_claim": ["books larger than the stated K/M/L", "IEEE rounding of the amounts", "nesting deeper than 4 (limit-1 = 9 is not reached)"],
  "stubs": ["fmt.Errorf: contract stub (non-nil error carrying the text)"]}
 
@@ -53,6 +57,7 @@ def ls(cls, tiers, b, owned):
 specs["C04"] = {"runs": [ls(c, Q, q, C04own) for c in range(5)] + [ls(c, T, t, C04own) for c in range(5)] + [
     run("parser:Harness_parse_generated", Q, {"R": 2, "E": 2, "n": 2, "m": 2}, owned=C04own, cover=["parsed"]),
     run("parser:Harness_parse_generated", T, {"R": 2, "E": 2, "n": 3, "m": 2, "layouts": 1}, owned=C04own, cover=["parsed"]),
+    run("parser:Harness_parse_long_ok", QT, {}, owned=C04own, cover=["long"], max_steps=60000000, note="concrete supplement: a comment, note, entry name or heading of 4094..8193 and 65000 bytes is one line (sizes around the block sizes of buffered readers)"),
     run("parser:Harness_parse_numbers_concrete", QT, {}, cover=["parsed"], note="concrete supplement: 36 number tokens through the parser vs strconv.ParseFloat, bit for bit (the symbolic runs treat ParseFloat as uninterpreted)"),
  ], "assumptions": [PF + ". The claim is that exactly the number token reaches ParseFloat and its result reaches the entry.",
     "names: first and last byte a letter, digit or non-ASCII byte; inner bytes anything except CR/LF; numbers over [0-9+-.eE] ending in a digit or '.'",
@@ -63,6 +68,9 @@ specs["C04"] = {"runs": [ls(c, Q, q, C04own) for c in range(5)] + [ls(c, T, t, C
 specs["C02"] = {"runs": [
     run(CMD + "reporter:Harness_day_item", Q, {"E": 2, "bookshapes": 4}, "real", cover=["item"], note="book shapes {x},{x,y},{y},{} per recipe (the empty recipe included)"),
     run(CMD + "register:Harness_old_reg_reporter", Q, {"E": 2}, "real", cover=["printed"]),
+    run(CMD + "reporter:Harness_day_item", QT, {"E": 1, "bookshapes": 4, "earlier": 1}, "real", cover=["item"], note="a day reported after another day: what it shows does not depend on the earlier day (state kept between days)"),
+    run("cmd/hranoprovod-cli:Harness_app_pipeline", Q, {"command": 0, "posbook": 1, "E": 1, "shapes": 3}, "real", cover=["ran"], note="whole application, `register --use-old-reg-reporter`: book and log as text with symbolic values through the real parser and resolver (nested recipes, repeated ingredients, forward/backward references), two days, against the reference model; book amounts assumed positive"),
+    run("cmd/hranoprovod-cli:Harness_app_pipeline", T, {"command": 0, "posbook": 0, "E": 2, "shapes": 4}, "real", cover=["ran"], max_paths=2000000),
     run("_root:Harness_merge_duplicates", QT, {"E": 5}, "real", cover=["merged"], note="every repetition pattern of <=5 entries over three foods"),
     run(CMD + "reporter:Harness_day_item", T, {"E": 3, "bookshapes": 4}, "real", cover=["item"]),
     run(CMD + "register:Harness_old_reg_reporter", T, {"E": 3}, "real", cover=["printed"]),
@@ -212,8 +220,9 @@ specs["C18"] = {"runs": [
     run("parser:Harness_channel_protocol", Q, {"lines": 3}, cover=["observed"]),
     run("parser:Harness_channel_protocol", T, {"lines": 4}, cover=["observed"]),
     run("parser:Harness_channel_read_failure", QT, {}, cover=["observed"], note="reader failing at every offset: the error reaches the consumer"),
+    run("parser:Harness_channel_parse_file", QT, {}, cover=["observed"], note="Parser.ParseFile vs ParseFileCallback on an existing file, a malformed file, a missing file and a directory (virtual file system)"),
  ], "assumptions": ["schedule reduction: the producer (Parser.ParseStream) performs a deterministic sequence of blocking sends on unbuffered channels and contains no receive, select or go statement (the executor aborts as unsupported if it meets one); with one producer at most one send is pending, so every schedule shows the consumer the longest prefix of the send sequence its policy accepts. The reduction is an argument; the send sequence itself is computed symbolically for all inputs"],
- "outside_claim": ["scheduling jitter and the race detector as such", "ParseFile on a missing file"], "stubs": [REALSTD, FMT]}
+ "outside_claim": ["scheduling jitter and the race detector as such", "select statements other than a non-blocking select of sends (every outcome of which is explored)"], "stubs": [REALSTD, FMT, "os.Open/(*os.File).Read: virtual file system"]}
 
 os.makedirs(os.path.join(here, "properties.d"), exist_ok=True)
 for pid, s in specs.items():
